@@ -549,6 +549,16 @@ def run_variant(t, tier, neg=None, keep=False, sweep=None):
         # too small", not "the property is violated": undecided unless some
         # other obligation fails as well
         uw = [r for r in failed if re.search(r"\.unwind\.\d+$", r["property"])]
+        # ... except for loops registered under "termination_bounds": their
+        # unwind limit IS the documented maximum trip count + 1, so the
+        # unwinding assertion is the obligation "the loop terminates within
+        # its bound" (stand-in for a decreases clause on generated code)
+        tb = [re.compile(x) for x in t.get("termination_bounds", [])]
+        for r in uw:
+            if any(g.fullmatch(r["property"]) for g in tb):
+                r["description"] = ("T.loop_terminates_within_its_maximum_trip_count (" +
+                                    r.get("description", "") + ")")
+        uw = [r for r in uw if not any(g.fullmatch(r["property"]) for g in tb)]
         if uw and len(uw) == len(failed):
             raise Undecided("unwinding assertion %s failed: loop bound of the "
                             "harness exceeded (%s)" % (uw[0]["property"],
